@@ -104,6 +104,10 @@ def run(chk, tier, seed):
     chk.cov["traces_validated_against_impl"] += len(oterms)
     chk.add_eval(len(meta))
     chk.cov["golden_files"] = sum(1 for m in meta.values() if m["kind"] == "gload")
+    # library types outside the universe: bytes against Ty.enc of the equivalent term, determinism, golden bytes of the pinned build
+    from . import libcases
+    lib_bare = libcases.run_rt(chk, binary, containers=("bare",))
+    libcases.run_det_and_golden(chk, binary, lib_bare)
     chk.cov["rule"] = ("real bytes of every (root, value) in bare / noschema / plain containers against the documented encoding `enc` (and the header) evaluated in Coq; "
                        "two saves of equal values byte-identical; golden files written by the pinned build (322d5e5) load to the recorded value and are re-written "
                        "byte-identically by the current build; distinct = (type key, container)")
